@@ -25,7 +25,7 @@ def run_cases(ctx, which="c01"):
             jobs.append((prog, prog.get("rows") or core.gen_rows(rng), f"c01_c{k}_{r}.csv"))
     for i in range(900 if quick else 40000):
         prog = core.gen_program(rng)
-        jobs.append((prog, core.gen_rows(rng, echo=prog["textonly"]), f"c01_{i}.csv"))
+        jobs.append((prog, core.gen_rows(rng, echo=prog["textonly"], empties=core.empties_ok(prog) and rng.random() < 0.4), f"c01_{i}.csv"))
     res = pmap(ctx, core.impl, jobs, chunksize=16)
     lits = [core.case_lit(j, o) for j, o in zip(jobs, res)]
     pred = "c01_lines" if which == "c01" else "c03_state"
